@@ -17,7 +17,9 @@ func init() { runners["C08"] = runC08 }
 func genLimitCase(rng *rand.Rand, L int64, thorough bool) *ReadCase {
 	o := randOpts(rng, 10)
 	o.CtlProb = 0.15
-	o.BFinalProb = 0
+	// compressed messages may end their deflate stream with a final block (the inflater then returns its
+	// last bytes together with io.EOF)
+	o.BFinalProb = 0.3
 	defaultLimit := L == -2
 	eff := L
 	if defaultLimit {
